@@ -625,8 +625,7 @@ class Coder(object):
                 state.recall_bitmap()
 
             else:  # 255 cancel re-used bitmap
-                if state.most_recent_bitmap_is_for_reuse:
-                    state.cancel_bitmap()
+                state.cancel_bitmap()
             self.process_constant(state, bit_operator, descriptor, 0)
 
         else:  # TODO: 241, 242, 243
